@@ -453,6 +453,22 @@ fn heavy_history(ctx: &Ctx, rep: &mut Report) {
                     if vt.dump() != f.dump() {
                         return Some("dump() differs from the fresh terminal's".to_string());
                     }
+                    // the reset in the MIDDLE of one long call (whatever a call does to get
+                    // through a long input quickly, ESC c starts from the parser state the
+                    // previous call ended in, and what follows it starts from ground)
+                    let mut v2 = build_vt(6, 3, Some(10));
+                    let _ = v2.feed_str(&heavy[a].1);
+                    let short: String = heavy[b].1.chars().take(5000).collect();
+                    let mut one = String::from("filler ");
+                    one.push_str(&short);
+                    one.push_str("\x1b\\\x1bc");
+                    one.push_str("\x1b[2;2Hw\r\nZ");
+                    let _ = v2.feed_str(&one);
+                    let mut f2 = build_vt(6, 3, Some(10));
+                    let _ = f2.feed_str("\x1b[2;2Hw\r\nZ");
+                    if obs_full(&v2) != obs_full(&f2) || v2.dump() != f2.dump() {
+                        return Some(format!("with ESC c inside one call of {} characters: lines() {:?} cursor {:?}; fresh: {:?} cursor {:?}", one.chars().count(), obs_full(&v2).rows, obs_full(&v2).cursor, obs_full(&f2).rows, obs_full(&f2).cursor));
+                    }
                     None
                 });
                 match r {
